@@ -1276,3 +1276,42 @@ def concrete_values(cfg, target_id, expr, env0, max_states=4000):
                 continue
             stack.append((t, nxt))
     return out
+
+
+def stored_forms(ctx, func, attr):
+    """Normalised texts of every value that can be stored into self.<attr> by func, with parameters written as
+    <param:NAME> (locals followed through their reaching definitions; only a *whole* expression that is a parameter is
+    rewritten, parameters inside larger expressions keep their names)."""
+    cfg = ctx.cfg(func)
+    out = []
+    for wn in [n for n in cfg.nodes if node_assign_value(n, attr) is not None]:
+        out.append(origin_text(cfg, wn.id, node_assign_value(wn, attr), func.params))
+    return out
+
+
+def origin_text(cfg, nid, expr, params, _depth=0):
+    """Text of `expr` at node nid with every local replaced by where its value comes from: <param:NAME> for an
+    unmodified parameter, the (recursively rewritten) defining expression for a local with one origin, <several>
+    otherwise.  Globals and attribute chains are left as written."""
+    import copy
+
+    class T(ast.NodeTransformer):
+        def visit_Name(self, node):
+            if not isinstance(node.ctx, ast.Load) or _depth > 6:
+                return node
+            og = value_origins(cfg, nid, node, params=params)
+            if not og:
+                return ast.Name(id="<untraceable %s>" % node.id, ctx=ast.Load())
+            if len(og) > 1:
+                return ast.Name(id="<several %s>" % node.id, ctx=ast.Load())
+            n_, e = og[0]
+            if isinstance(e, ast.Name):
+                if n_ == cfg.entry.id and e.id in params:
+                    return ast.Name(id="<param:%s>" % e.id, ctx=ast.Load())
+                return e  # a global
+            return ast.Name(id="(" + origin_text(cfg, n_, e, params, _depth + 1) + ")", ctx=ast.Load())
+
+        def visit_Lambda(self, node):
+            return node
+
+    return norm(T().visit(copy.deepcopy(expr)), 400)
